@@ -8,6 +8,7 @@
    Not expressible: machine-level data races, the hand-written unsafe impl Sync, rayon's scheduler. *)
 From Coq Require Import ZArith NArith List Bool Reals Floats String. Import ListNotations.
 From PV Require Import Num NumR model.Tables model.Spec model.Geom model.Optimiser model.OptSpec model.Pipeline model.Svg model.Json gen.GenTables gen.GenSchema proofs.OptStruct proofs.OptLoop proofs.LatticeFacts proofs.TablesFacts proofs.PipelineFacts proofs.OutputFacts proofs.FloatFacts proofs.OrderFacts proofs.Interleave.
+From PV Require Import model.Cli gen.GenCli proofs.CliFacts.
 
 Theorem C09_run_writes_only_own_cells :
   forall (NN : Num) (fexp : carrier NN -> carrier NN) (score : N -> list (carrier NN) -> option
@@ -88,4 +89,16 @@ Theorem C09_run_local :
     fexp score c st draws)) (params NN (run NN fexp score c (with_params NN st ps) draws)).
 Proof. exact run_local. Qed.
 Print Assumptions C09_run_local.
+
+
+Theorem C09_cli_stage_seeds :
+  forall (NN : Num) (i : N) (u : sbuilder NN) (k : nat), k < 3 -> sb_seed NN (stage_settings NN
+    (gen_stages NN) k i u) = Some i.
+Proof. exact cli_stage_seeds. Qed.
+Print Assumptions C09_cli_stage_seeds.
+
+Theorem C09_cli_driver_translated :
+  gen_cli_problem = ""%string.
+Proof. exact cli_translated. Qed.
+Print Assumptions C09_cli_driver_translated.
 
